@@ -173,9 +173,10 @@ pub fn string_from_str(s: &str) -> (r: String)
 pub fn hm_map_collect<K: Eq + std::hash::Hash, V, F: FnMut((K, V)) -> (K, V)>(m: HashMap<K, V>, f: F) -> (r: HashMap<K, V>)
     requires forall |k: K| #[trigger] m@.contains_key(k) ==> f.requires(((k, m@[k]),))
     ensures
-        // every result entry is the image of an input entry, every input entry has an image, keys as returned by f
+        // every result entry is the image of an input entry; the key f returned for an input entry is present in the result
+        // (NOT: "its value is the image of that entry" - when f sends two entries to one key the later one replaces the earlier)
         forall |k2: K| #[trigger] r@.contains_key(k2) ==> exists |k: K| m@.contains_key(k) && f.ensures(((k, m@[k]),), (k2, r@[k2])),
-        forall |k: K| #[trigger] m@.contains_key(k) ==> exists |k2: K| r@.contains_key(k2) && f.ensures(((k, m@[k]),), (k2, r@[k2])),
+        forall |k: K| #[trigger] m@.contains_key(k) ==> exists |k2: K, v2: V| r@.contains_key(k2) && f.ensures(((k, m@[k]),), (k2, v2)),
 { m.into_iter().map(f).collect() }
 
 // class S: Vec::sort_by_key(f) with a (usize, usize) key: stable sort = a permutation that is ascending in the key
